@@ -198,6 +198,19 @@ fn main() {
         guard::start_watchdog(Duration::from_secs(per_call_limit), Some(hang_path));
     }
 
+    // Every worker process begins with a little work in one format (or none), rotating with shard and
+    // seed: whatever the library initialises once per process or per thread is then initialised from a
+    // different format in different workers.  A replay starts the way the worker that found it did.
+    let first_of = |name: &str| -> Option<names::Fmt> { names::Fmt::from_name(name) };
+    if replay.is_none() {
+        let g = ["none", "ascii", "latex", "han"][((shard as u64 + seed) % 4) as usize];
+        ctx.report.process_first_format = g;
+        ctx.report.bump(&format!("worker-process.first-work-in.{}", g));
+        if let Some(f) = first_of(g) {
+            props::common::prelude(f);
+        }
+    }
+
     if let Some(path) = replay {
         let text = std::fs::read_to_string(&path).unwrap_or_else(|e| {
             eprintln!("cannot read replay {path}: {e}");
@@ -207,6 +220,9 @@ fn main() {
             eprintln!("cannot parse replay {path}: {e}");
             std::process::exit(2)
         });
+        if let Some(f) = j.get("detail").and_then(|d| d.get("process_first_format")).and_then(|x| x.as_str()).and_then(first_of) {
+            props::common::prelude(f);
+        }
         let reproduced = props::replay(&mut ctx, &j);
         match reproduced {
             Some(true) => {
